@@ -320,6 +320,51 @@ theorem post_init_never_clobbers (T : List Req) (hT : prefixesOK T = true)
   have hpast := reserveLevel_past lvl ng b hb r i (hkinds r hrT) (by rw [← heq]; exact hi)
   exact fresh_vs_existing T hT _ rs hrs r hrT i (by rw [← ctrOf_eq_ctr]; exact hpast) n hn hi
 
+/-! ## Any interleaving of reservations and requests (graphs built level by level, as on reload) -/
+
+/-- one step of a generator's life: a reservation or a name request -/
+inductive Op
+  | reserve (n : Name)
+  | request (r : Req)
+
+def applyOp (ng : NameGen) : Op → NameGen
+  | .reserve n => ng.reserve n
+  | .request r => (Scfg.Model.request ng r).2
+
+theorem applyOp_mono (ng : NameGen) (op : Op) (k : String) : ng.ctrOf k ≤ (applyOp ng op).ctrOf k := by
+  cases op with
+  | reserve n => exact reserve_mono ng n k
+  | request r =>
+    simp only [applyOp, request_snd, ctrOf_eq_ctr, ctr_next]
+    split
+    · next h => rw [h]; omega
+    · omega
+
+theorem applyOps_mono (ops : List Op) : ∀ (ng : NameGen) (k : String),
+    ng.ctrOf k ≤ (ops.foldl applyOp ng).ctrOf k := by
+  induction ops with
+  | nil => intro ng k; exact Nat.le_refl _
+  | cons op ops ih => intro ng k; exact Nat.le_trans (applyOp_mono ng op k) (ih _ k)
+
+/-- **Reload and every other history.** Whatever reservations and requests a generator has gone
+    through (sub-graphs built one by one, meta regions named in between, …): once a name has been
+    reserved, no name handed out afterwards equals it. -/
+theorem reserved_never_generated (T : List Req) (hT : prefixesOK T = true)
+    (hkinds : ∀ r ∈ T, r.2.toList ≠ []) (ng : NameGen) (before after : List Op) (name : Name)
+    (rs : List Req) (hrs : ∀ r ∈ rs, r ∈ T) :
+    ∀ n ∈ runNames ((before ++ Op.reserve name :: after).foldl applyOp ng) rs, n ≠ name := by
+  intro n hn heq
+  obtain ⟨r, hr, i, hi⟩ := runNames_shape rs _ n hn
+  have hrT := hrs r hr
+  have h1 : i < ((before.foldl applyOp ng).reserve name).ctrOf r.2 :=
+    reserve_past _ name r i (hkinds r hrT) (by rw [← heq]; exact hi)
+  have h2 : ((before.foldl applyOp ng).reserve name).ctrOf r.2 ≤
+      ((before ++ Op.reserve name :: after).foldl applyOp ng).ctrOf r.2 := by
+    rw [List.foldl_append, List.foldl_cons]
+    exact applyOps_mono after _ _
+  exact fresh_vs_existing T hT _ rs hrs r hrT i
+    (by rw [← ctrOf_eq_ctr]; exact Nat.lt_of_lt_of_le h1 h2) n hn hi
+
 /-! Non-vacuity: the library's kinds are non-empty, and reserving `synth_asign_block_3` moves the
 counter of `synth_asign` to 4. -/
 example : ∀ r ∈ libReqs, r.2.toList ≠ [] := by decide
